@@ -498,7 +498,12 @@ fn run_iso(iso: &mut Sink, meta: &mut Meta, rng: &mut Rng) {
     let mut loops: Vec<Vec<(String, Value)>> = Vec::new();
     if in_loop {
         let mut l = vec![(loop_names[0].clone(), val("loop", &loop_names[0]))];
-        l.extend(mk(&loop_set_names, "lset"));
+        // `set` inside the loop writes into the loop's own scope, replacing the loop variable if
+        // it has the same name
+        for (k, v) in mk(&loop_set_names, "lset") {
+            l.retain(|(x, _)| *x != k);
+            l.push((k, v));
+        }
         loops.push(l);
     }
     let sets_m = if in_loop { mk(&set_names, scope_name) } else { mk(&set_names, scope_name) };
